@@ -19,7 +19,7 @@ def c07(tier, seed, dst, facts):
     # ---------------------------------------------------------------- feature alphas: [αF] > [αF] on the same segment
     # quick: one plain and one inverted shape per run, rotating with VERIF_SEED; the inverted one always on a feature of a
     # place sub-node (that is where "absent sub-node matches neither" and -α interact)
-    shapes = [(f, False) for f in ([[15, 20, 16, 24][seed % 4], [11, 2, 6][seed % 3]] if tier == "quick" else range(n))] + [(f, True) for f in ([[16, 20, 15, 24][seed % 4]] if tier == "quick" else per_node)]
+    shapes = [(f, False) for f in ([[15, 20, 16, 24, 11, 2, 6][seed % 7]] if tier == "quick" else range(n))] + [(f, True) for f in ([[16, 20, 15, 24][seed % 4]] if tier == "quick" else per_node)]
     for (f, inv_) in shapes:
         nm = "c07_feat_alpha_roundtrip_%02d%s" % (f, "_inv" if inv_ else "")
         ctor = "InvAlpha" if inv_ else "Alpha"
@@ -54,7 +54,7 @@ fn @name@() {
             symbolic="all bundles (2^40)", shape="[%s%s] > [%s%s]" % ("-α" if inv_ else "α", fname(f), "-α" if inv_ else "α", fname(f)), unwind=unwind, unwindset=UNWINDSET, stubs=STUBS, cap_s=2400, weight=5))
 
     # ---------------------------------------------------------------- node alphas
-    for ni in ([3, [6, 1, 4, 7][seed % 4]] if tier == "quick" else range(8)):
+    for ni in ([3] if tier == "quick" else range(8)):
         nd = G.NODES[ni]
         nm = "c07_node_alpha_roundtrip_%s" % nd.lower()
         hs.append(G.H(nm, "node-alpha-roundtrip", "subrule", G.T(HDR + """
@@ -80,6 +80,10 @@ fn @name@() {
 
     # ---------------------------------------------------------------- suprasegmental alphas: stress
     stress_shapes = [("stress", "[Some(k), None]", False), ("stress_inv", "[Some(k), None]", True), ("secstress", "[None, Some(k)]", False), ("secstress_inv", "[None, Some(k)]", True)]
+    if tier == "quick":
+        # `αstress` carries the known finding and is always run; of the other three one inverted shape per run, the
+        # `-αsecstress` one on even seeds and by default
+        stress_shapes = [stress_shapes[0], stress_shapes[3] if seed % 2 == 0 else stress_shapes[1], stress_shapes[2]][:2 + (seed % 2)]
     for (tag, arr, inv_) in stress_shapes:
         nm = "c07_supra_alpha_roundtrip_" + tag
         hs.append(G.H(nm, "supra-alpha-roundtrip", "subrule", G.T(HDR + """
@@ -111,7 +115,7 @@ fn @name@() {
     # of apply_supras are explored on the VecDeque and merged. What is decided instead is the capture: the real matcher
     # binds exactly the boolean that the same modifier, used as a binary one, would need in order to reproduce the length
     # (the write-back of a *binary* length modifier is C05's set-length family).
-    len_shapes = [(2, "overlong", False), (1, "long", True), (2, "long", False), (3, "overlong", True)] if tier == "quick" else [(L, tag, iv) for L in (1, 2, 3) for tag in ("long", "overlong") for iv in (False, True)]
+    len_shapes = [(2, "overlong", False), [(1, "long", True), (2, "long", False), (3, "overlong", True)][seed % 3]] if tier == "quick" else [(L, tag, iv) for L in (1, 2, 3) for tag in ("long", "overlong") for iv in (False, True)]
     for (L, tag, iv) in len_shapes:
         nm = "c07_supra_alpha_capture_%s_%d%s" % (tag, L, "_inv" if iv else "")
         segs = ", ".join(["x"] + ["a"] * L + ["y"])
@@ -202,7 +206,7 @@ fn c07_var_match_context() {
 
     # ---------------------------------------------------------------- syllable variables: identical syllable only
     HDRS = "#[kani::proof]\n" + G.STUB_RS + "\n#[kani::unwind(8)]"
-    sv_shapes = [(2, 2, True), (3, 2, False), [(2, 3, True), (1, 2, True)][seed % 2]] if tier == "quick" else [(k, m, f) for k in (1, 2, 3) for m in (1, 2, 3) for f in (True, False)]
+    sv_shapes = [(3, 2, False), [(2, 3, True), (1, 2, True), (2, 2, True)][seed % 3]] if tier == "quick" else [(k, m, f) for k in (1, 2, 3) for m in (1, 2, 3) for f in (True, False)]
     for (k, m, fw) in sv_shapes:
         nm = "c07_syllvar_match_context_%d_%d_%s" % (k, m, "fw" if fw else "bw")
         cs = ["c%d" % i for i in range(k)]
@@ -236,7 +240,7 @@ fn @name@() {
             mid=1 if m > 1 else 0, midcheck=('match sub.context_match_syll_var(&captured, &None, &w, &mut pos2, %s) { Ok(v) => assert!(!v, "role=syllable-variable-matches-mid-syllable"), Err(_) => assert!(false, "role=unexpected-error") }' % ("true" if fw else "false")) if m > 1 else "",
             cov="same" if k == m else "true"), shared=[G.SUBRULE_SHARED], functions=["SubRule::context_match_syll_var", "VecDeque<Segment>::eq/clone/reverse", "Word::in_bounds"],
             symbolic="%d + %d bundles, both stresses, both tones" % (k, m), shape="captured syllable of %d, word syllable of %d, %s" % (k, m, "forwards" if fw else "backwards"), unwind=8, stubs=STUBS, weight=3))
-    for (k, m) in ([(2, 2), (2, 3)] if tier == "quick" else [(1, 1), (1, 2), (2, 1), (2, 2), (2, 3), (3, 2), (3, 3)]):
+    for (k, m) in ([[(2, 2)], [(2, 3)]][seed % 2] if tier == "quick" else [(1, 1), (1, 2), (2, 1), (2, 2), (2, 3), (3, 2), (3, 3)]):
         nm = "c07_syllvar_match_input_%d_%d" % (k, m)
         cs = ["c%d" % i for i in range(k)]
         ws = ["w%d" % i for i in range(m)]
@@ -277,6 +281,9 @@ fn c07_twin_reach() {
 }
 """), shared=[G.SUBRULE_SHARED], functions=["SubRule::match_stress"], symbolic="-", shape="assert(false) twin", expect="fail", unwind=unwind, stubs=STUBS))
 
+    if tier == "quick":
+        drop = "c07_var_capture_input" if seed % 2 == 0 else "c07_var_capture_context"
+        hs = [h for h in hs if h["name"] != drop]
     return {
         "harnesses": hs, "cap_s": 900 if tier == "quick" else 2400, "jobs": 8,
         "bounds": ["unwind %d; hashbrown/SipHash loops bounded to 3 through --unwindset (ids read from this build), unwinding assertions on" % unwind,
